@@ -425,6 +425,67 @@ def rule_b2(ctx, F):
 
 
 # ------------------------------------------------------------------------------------------------
+# B3: no use of a handle after this function gave its reference away
+# ------------------------------------------------------------------------------------------------
+# by-hand exemptions of B3, one reason each (exact function + variable)
+B3_TABLED = {("ts_parser__breakdown_top_of_stack", "parent"):
+             "only the LOG line reads parent's symbol after the release; a node being broken down was reused from the old tree, which the parser keeps retained until ts_parser_reset"}
+RELEASERS = {"ts_subtree_release": 1, "ts_current_free": 0, "ts_subtree_array_delete": 1, "ts_stack_delete": 0, "ts_tree_delete": 0, "ts_language_delete": 0}
+
+
+class UseAfterRelease(Monitor):
+    """m: 0 = live, 1 = this variable's reference was released/freed on this path."""
+
+    def __init__(self, fn, vid, rel_pts, def_pts):
+        self.fn, self.vid, self.rel, self.defs = fn, vid, rel_pts, def_pts
+
+    def elem(self, m, pt, e, s):
+        if pt in self.defs:
+            return 0
+        used = any(n.get("k") == "ref" and n.get("id") == self.vid for n in own_walk(e))
+        if pt in self.rel:
+            if m == 1 and used:
+                return Viol("released twice on one path", pt)
+            return 1
+        if m == 1 and used:
+            return Viol("used after its reference was released", pt)
+        return m
+
+
+def rule_b3(ctx, F):
+    n = 0
+    for fn in F.fn_list:
+        if not fn.file.startswith("lib/src"):
+            continue
+        cand = {}
+        for pt, c in fn.calls():
+            nm = callee_name(c)
+            if nm in RELEASERS and len(c.get("a", [])) > RELEASERS[nm]:
+                a = strip(c["a"][RELEASERS[nm]])
+                if a.get("k") == "ref" and a.get("dk") in ("local", "param"):
+                    cand.setdefault((a["id"], a["name"]), set()).add(pt)
+        for (vid, nm), rel in cand.items():
+            dpts = set()
+            for pt, e in fn.points():
+                for x in own_walk(e):
+                    if (x.get("k") == "decl" and x.get("id") == vid) or (x.get("k") == "assign" and strip(x["l"]).get("k") == "ref" and strip(x["l"])["id"] == vid):
+                        if pt not in rel:
+                            dpts.add(pt)
+            n += 1
+            s = Search(fn, UseAfterRelease(fn, vid, rel, dpts), track=True)
+            v = s.run(0)
+            key = "%s:%s" % (fn.name, nm)
+            if v is not None and (fn.name, nm) in B3_TABLED and set(fn.macro(v.pt)) & {"LOG", "TREE_NAME", "SYM_NAME"}:
+                ctx.ok("B3", key, "tabled: " + B3_TABLED[(fn.name, nm)], nontrivial=False)
+                continue
+            if v is None:
+                ctx.ok("B3", key, "`%s` is not touched again on any path after %s gave its reference away" % (nm, fn.name), sample={"function": fn.name, "variable": nm} if n <= 3 else None)
+            else:
+                ctx.bad("B3", key, "%s: `%s` is %s (%s)" % (fn.name, nm, v.msg, fn.loc(v.pt)), {"function": fn.name, "site": fn.loc(v.pt), "path": s.render_path(v.path)[-6:]})
+    ctx.floor("released locals checked for later use", n, 15)
+
+
+# ------------------------------------------------------------------------------------------------
 # W1: allocator discipline
 # ------------------------------------------------------------------------------------------------
 LIBC_ALLOC = {"malloc", "calloc", "realloc", "free", "strdup", "strndup", "aligned_alloc", "posix_memalign", "reallocarray"}
@@ -540,6 +601,7 @@ def run(ctx):
         ctx.analysed["c_functions_" + cfg] = len(F.fn_list)
         rule_b1(ctx, F)
         rule_b2(ctx, F)
+        rule_b3(ctx, F)
         rule_w1(ctx, F)
         rule_p1(ctx, F)
     ctx.assumptions = ["an external scanner's serialize() writes at most TREE_SITTER_SERIALIZATION_BUFFER_SIZE bytes into the buffer it is given (documented contract; foreign code)",
